@@ -191,6 +191,8 @@ class Exec:
             elif p["id"] in self.addr_taken:
                 # parameter whose address is taken: treat as memory cell initialised to val
                 self.env[p["id"]] = ("cell", ("var", p["n"], p["id"]), val)
+                if is_scalar_type(p["t"]):
+                    self.mem[("var", p["n"], p["id"])] = val       # the cell holds the argument until something writes it
             else:
                 self.env[p["id"]] = val
         self.param_names = [p["n"] for p in params]
@@ -236,6 +238,12 @@ class Exec:
             return "fall"
         if self.unroll and k in ("for", "while", "do"):
             r_ = self._unrolled(node, out)
+            if r_ is not None:
+                return r_
+        elif k in ("for", "while", "do") and getattr(self.hooks, "unroll_literal", 0):
+            # a view that wants table-driven code as straight-line code (the I/O views: `for (i = 0; i < 3; ++i) set(names[i], values[i])`):
+            # a loop all of whose tests are literals is executed iteration by iteration, up to the hook's bound
+            r_ = self._unrolled(node, out, limit=self.hooks.unroll_literal)
             if r_ is not None:
                 return r_
         if k in ("if", "for", "while", "do", "forrange", "asm", "switch", "try"):
@@ -562,6 +570,10 @@ class Exec:
             self.mem.update(mem_t)
         else:
             self.mem.update({k: v for k, v in mem_t.items() if mem_e.get(k) == v})
+            # the cell of a local variable (a local handed to an inlined callee by reference) assigned on one side only
+            for k in set(mem_t) | set(mem_e):
+                if k[0] == "var" and k not in self.mem:
+                    self.mem[k] = ("cond", cond, mem_t.get(k, mem0.get(k, k)), mem_e.get(k, mem0.get(k, k)))
         t_exits = st_t in ("return", "exit")
         e_exits = st_e in ("return", "exit")
         out.append({"e": "if", "cond": cond, "then": th, "else": el, "l": node["l"],
@@ -1528,7 +1540,20 @@ class Exec:
                 args = args[1:]
         nbefore = len(out)
         swapped = (self.load(byref[0]), self.load(byref[1])) if name == "std::swap" and len(byref) == 2 else None
+        # a tracked local handed over by reference: an inlined callee sees its value through the variable's cell and may assign it
+        seeded = []
+        for a_, lvt in zip([a for i, a in enumerate(e.get("args", [])) if isinstance(a, dict) and i in refargs and a.get("k") in ("ref", "member", "index", "un")], byref):
+            if a_.get("k") == "ref" and lvt == ("var", a_.get("n"), a_.get("id")) and a_.get("id") in self.env and lvt not in self.mem:
+                cur = self.env[a_["id"]]
+                if not (isinstance(cur, tuple) and cur and cur[0] in ("cell", "alias")):
+                    self.mem[lvt] = cur
+                    seeded.append((a_["id"], lvt))
         r = self.emit_call(e, name, args, out, this=this)
+        inlined_ = any(x.get("e") == "inlined" for x in out[nbefore:])
+        for vid, lvt in seeded:
+            if inlined_:
+                self.env[vid] = self.mem.get(lvt, lvt)
+            self.mem.pop(lvt, None)
         if byref and not any(x.get("e") == "inlined" for x in out[nbefore:]):
             # the callee may assign through its reference parameters
             if name == "std::swap" and len(byref) == 2:
